@@ -90,6 +90,9 @@ type Scenario struct {
 	Tree  TreeSpec `json:"tree"`
 	Insts []int    `json:"insts"`
 	Msgs  []Msg    `json:"msgs"`
+	// Net selects the cluster: "" / "local" = in-memory router connections,
+	// "tcp" = servers listening on real TCP sockets (plain TCP, free ports).
+	Net string `json:"net,omitempty"`
 }
 
 // Elem is one (node, message) pair seen by a handler or read from a channel.
@@ -159,9 +162,15 @@ type proto struct {
 	}
 }
 
-type worker struct {
+type cluster struct {
 	local   *onet.LocalTest
 	servers []*onet.Server
+}
+
+type worker struct {
+	local    *onet.LocalTest
+	servers  []*onet.Server
+	clusters map[string]*cluster
 	out     *os.File
 
 	mu      sync.Mutex
@@ -343,8 +352,24 @@ const waitFor = 20 * time.Second
 
 func (w *worker) run(sc *Scenario) {
 	res := Result{}
+	// ---- cluster
+	net := sc.Net
+	if net == "" {
+		net = "local"
+	}
+	cl := w.clusters[net]
+	if cl == nil {
+		if net != "tcp" {
+			w.emit(line{End: "error", Det: "unknown net"})
+			return
+		}
+		cl = newCluster(onet.NewTCPTest(suite))
+		w.clusters[net] = cl
+	}
+	w.local, w.servers = cl.local, cl.servers
 	// ---- tree (built once per shape; registered again for every scenario)
 	key, _ := json.Marshal(sc.Tree)
+	key = append(key, net...)
 	bt := w.trees[string(key)]
 	if bt == nil {
 		bt = &builtTree{idclass: map[onet.TreeNodeID]int{}, inTree: map[int]bool{}}
@@ -579,15 +604,9 @@ func ChildMain() {
 		panic(err)
 	}
 	network.RegisterMessages(&MsgFence{}, &MsgH1{}, &MsgHA{}, &MsgC1{}, &MsgCA{}, &MsgHA2{}, &MsgCA2{}, &MsgNone{}, &ConnFence{})
-	local := onet.NewLocalTest(suite)
-	local.Check = onet.CheckNone
-	w = &worker{local: local, out: out, trees: map[string]*builtTree{}, fence: make(chan fenceEv, 1000), cfence: make(chan int64, 1000),
-		protos: map[onet.RoundID]*proto{}, instOf: map[onet.RoundID]int{}, nodePos: map[*onet.TreeNode]int{}}
-	w.servers = local.GenServers(NServers)
-	cfID := network.MessageType(&ConnFence{})
-	for _, s := range w.servers {
-		s.RegisterProcessor(cfProc{}, cfID)
-	}
+	w = &worker{out: out, trees: map[string]*builtTree{}, fence: make(chan fenceEv, 1000), cfence: make(chan int64, 1000),
+		protos: map[onet.RoundID]*proto{}, instOf: map[onet.RoundID]int{}, nodePos: map[*onet.TreeNode]int{}, clusters: map[string]*cluster{}}
+	w.clusters["local"] = newCluster(onet.NewLocalTest(suite))
 	w.emit(line{End: "ready"})
 	in := bufio.NewReaderSize(os.Stdin, 1<<20)
 	for {
@@ -604,8 +623,20 @@ func ChildMain() {
 			break
 		}
 	}
-	local.CloseAll()
+	for _, c := range w.clusters {
+		c.local.CloseAll()
+	}
 	os.Exit(0)
+}
+
+func newCluster(local *onet.LocalTest) *cluster {
+	local.Check = onet.CheckNone
+	c := &cluster{local: local, servers: local.GenServers(NServers)}
+	cfID := network.MessageType(&ConnFence{})
+	for _, s := range c.servers {
+		s.RegisterProcessor(cfProc{}, cfID)
+	}
+	return c
 }
 
 // ------------------------------------------------------------------ parent --
